@@ -296,7 +296,7 @@ static void run_case(void (*f)(void), int id) {
   waitpid(pid, &st, 0);
   if (st != 0) { printf("\\n%%d X %%d\\n", id, st); fflush(stdout); }
 }
-""" % 3
+""" % 2
 
 
 def expected(c):
@@ -535,7 +535,8 @@ def judge(c2m, engines, cases, tag, stats, extra_engines=()):
     first = list(vlib.chunks(list(enumerate(cases)), BATCH))
     suspects, n1 = waves(first, False)
     stats.cnt["cases_rerun_before_report"] += len(suspects)
-    _, n2 = waves(list(vlib.chunks(suspects, BATCH)), True)
+    # small batches: every one of these cases misbehaved, possibly by not terminating (2 s each)
+    _, n2 = waves(list(vlib.chunks(suspects, 20 if cases and cases[0]["fam"] == "stmt" else BATCH)), True)
     return n1 + n2
 
 
